@@ -19,7 +19,7 @@ def _sh(s):
 # ------------------------------------------------------------------ no_ambiguity
 
 
-@rule("OPT-AMB", ["C08", "C01", "C12", "C11", "C02", "C20"], floor=4)
+@rule("OPT-AMB", ["C08", "C01", "C12", "C11", "C02", "C20", "C09", "C10"], floor=4)
 def opt_amb(ctx):
     """no_ambiguity may answer true only under a justification: J1 the follower is EndProgram and the repeat is
     greedy; J2 the first sets of the repeated term and of the follower are disjoint AND the follower can never
@@ -258,7 +258,7 @@ def _impls(ctx, method):
     return [b for b in ctx.f.bodies if b.impl_trait == OC and b.name == method and not b.from_expansion and b.kind != "Closure"]
 
 
-@rule("OPT-FIRSTSET", ["C08", "C01", "C20"], floor=6)
+@rule("OPT-FIRSTSET", ["C08", "C01", "C20", "C09", "C10", "C11", "C02"], floor=6)
 def opt_firstset(ctx):
     """get_initial_character_class over-approximates the first characters: default all(); CharClass its class;
     Repeat its child's; Atom {first char} (+ case closure under case_blind); Choice the union over all branches;
@@ -579,7 +579,7 @@ def opt_fixlen(ctx):
 # ------------------------------------------------------------------ ReProgram::new
 
 
-@rule("OPT-PROGRAM", ["C08", "C01", "C16", "C12", "C13", "C20"], floor=5)
+@rule("OPT-PROGRAM", ["C08", "C01", "C16", "C12", "C13", "C20", "C09", "C10", "C11", "C02"], floor=5)
 def opt_program(ctx):
     """ReProgram::new: prefix only from a leading Atom of the top-level Sequence, initial class only from a leading
     CharClass, OPT_HASBOL only for a leading '^'; minimum_length = operation.get_minimum_match_length();
@@ -637,7 +637,7 @@ ADDP = "re_program::ReProgram::add_precondition"
 ADDR = "re_program::ReProgram::add_repeat_precondition"
 
 
-@rule("OPT-PRECOND", ["C08", "C01", "C20", "C05"], floor=10)
+@rule("OPT-PRECOND", ["C08", "C01", "C20", "C05", "C12"], floor=10)
 def opt_precond(ctx):
     """add_precondition descends only into terms every match must contain: Atom/CharClass themselves; the child of
     a Capture; a repeat-family node only under min >= 1; all operations of a Sequence in order; never into Choice
@@ -707,7 +707,7 @@ def opt_precond(ctx):
     for i in out:
         # what is probed as a precondition runs before match_at has allocated the back-reference arrays: that no
         # precondition contains a Capture (only Atom / CharClass leaves, and repeats of them) also bears on C05
-        i.props = ["C08", "C01", "C20", "C05"] if i.key.startswith(("repeat-", "capture", "leaf", "ignored")) else ["C08", "C01", "C20"]
+        i.props = ["C08", "C01", "C20", "C12", "C05"] if i.key.startswith(("repeat-", "capture", "leaf", "ignored")) else ["C08", "C01", "C20", "C12"]
     return out
 
 
